@@ -218,6 +218,9 @@ class Parser:
                 # the value stack is empty before the first token has been shifted
                 value_stack = ip.parser_state.value_stack
                 previous = value_stack[-1] if value_stack else None
+                if isinstance(previous, str):
+                    # keywords are case-insensitive
+                    previous = previous.upper()
 
                 if t.type == "UNQUOTED_STRING":
                     # Unquoted strings after SYMBOL can only be values, not attributes
